@@ -599,3 +599,42 @@ pub fn random_unicode(rng: &mut Rng) -> String {
     }
     out
 }
+
+/// A large sparse grid: many isolated marks, i.e. many separate spans and
+/// fragments (size-dependent code paths: batching, parallel splits, caches).
+pub fn sparse_grid(rng: &mut Rng, w: usize, h: usize, density_percent: u64) -> String {
+    let mut out = String::new();
+    for _ in 0..h {
+        let mut line = String::new();
+        for _ in 0..w {
+            if rng.below(100) < density_percent {
+                line.push_str(*rng.pick(LINE_CHARS));
+            } else {
+                line.push(' ');
+            }
+        }
+        out.push_str(line.trim_end());
+        out.push('\n');
+    }
+    out
+}
+
+/// The first `max_bytes` (cut at a line end) of the largest test-data files.
+pub fn big_windows(pool: &Pool, max_bytes: usize) -> Vec<String> {
+    let mut v = vec![];
+    for (_, t) in pool.files.iter().filter(|f| f.1.len() > pool.max_file) {
+        let mut cut = 0;
+        for (i, b) in t.bytes().enumerate() {
+            if i >= max_bytes {
+                break;
+            }
+            if b == b'\n' {
+                cut = i + 1;
+            }
+        }
+        if cut > 1000 {
+            v.push(t[..cut].to_string());
+        }
+    }
+    v
+}
